@@ -206,11 +206,12 @@ func (c *vfCore) record(op string, prev *vfCore, prevDesc string) {
 		return
 	}
 	if c.owner == vfSentinelCtl || c.owner == vfSentinelGate {
+		// a marker in the ledger (orders the consumer's callbacks against the sentinel's own callbacks;
+		// Kind holds the sentinel's callback) and, for Init/Inherit, a report
+		l.mu.Lock()
+		l.calls = append(l.calls, vfCall{Op: "marker", Kind: op, Core: c, Level: c.level, Owner: c.owner, Payload: c.payload})
+		l.mu.Unlock()
 		if op != "close" {
-			// a marker in the ledger (orders the consumer's callbacks against the sentinel bumps) and a report
-			l.mu.Lock()
-			l.calls = append(l.calls, vfCall{Op: "marker", Core: c, Level: c.level, Owner: c.owner, Payload: c.payload})
-			l.mu.Unlock()
 			select {
 			case l.barrier <- c.owner + "=" + c.payload:
 			default:
@@ -1257,6 +1258,70 @@ func TestVerifC20EndToEnd(t *testing.T) {
 				if len(cands) > 0 {
 					blockName = rapid.SampledFrom(cands).Draw(rt, "blockName")
 				}
+			}
+			// an EMPTY snapshot through the syncer (the last objects were removed: the syncer delivers a map
+			// without entries; not even the sentinels are in it). The sentinels come back in a snapshot of
+			// their own, then the generated snapshot follows: each consumer's callbacks before its sentinel's
+			// Init belong to the empty snapshot (everything closed, the sentinels included), the ones after
+			// it to the snapshot that follows.
+			if blockName == "" && rapid.IntRange(0, 4).Draw(rt, "emptySnapshot") == 0 {
+				vf.Class("empty-snapshot-through-the-syncer")
+				if len(cur) > 0 {
+					vf.Class("empty-snapshot-removes-the-last-objects")
+				}
+				hist = append(hist, fmt.Sprintf("step %d: EMPTY snapshot {} (no entry at all), then the sentinels alone, then snapshot %s panic-plan(name(/filter):mask 1=init 2=inherit 4=close)=%v", step, next, planDesc))
+				led.mu.Lock()
+				callsBefore := len(led.calls)
+				led.mu.Unlock()
+				send(map[string]string{})
+				prevB := fmt.Sprintf("b%d", barrierNo)
+				send(map[string]string{
+					vfSentinelCtl:  vfRender(vfSentinelCtl, vfObj{"VfCtlA", prevB}),
+					vfSentinelGate: vfRender(vfSentinelGate, vfObj{"VfGateA", prevB}),
+				})
+				apply(next)
+				led.mu.Lock()
+				stepCalls := append([]vfCall{}, led.calls[callsBefore:]...)
+				led.mu.Unlock()
+				var calls1, calls2 []vfCall
+				sentinelOps := map[string][]string{}
+				for _, c := range stepCalls {
+					consumer := vfSentinelGate
+					if c.Level == "ctl" {
+						consumer = vfSentinelCtl
+					}
+					if c.Op == "marker" {
+						sentinelOps[c.Owner] = append(sentinelOps[c.Owner], c.Kind)
+						continue
+					}
+					seenInit := false
+					for _, op := range sentinelOps[consumer] {
+						seenInit = seenInit || op == "init"
+					}
+					if seenInit {
+						calls2 = append(calls2, c)
+					} else {
+						calls1 = append(calls1, c)
+					}
+				}
+				// the sentinels are objects like any other: closed once by the empty snapshot, initialised
+				// once when they reappear, then inherited by the barrier's bump(s)
+				for _, sn := range []string{vfSentinelCtl, vfSentinelGate} {
+					ops := sentinelOps[sn]
+					if len(ops) < 2 || ops[0] != "close" || ops[1] != "init" {
+						finish()
+						closeSuper()
+						vf.Violation(rt, "empty-snapshot-not-applied", "after step %d: object %s was in no entry of the empty snapshot and is back in the next one, so it must get Close then Init; its callbacks were %v; callbacks of the other objects in this step: %v\nhistory:\n%s", step, sn, ops, vfWithoutMarkers(stepCalls), strings.Join(hist, "\n"))
+						return
+					}
+				}
+				if !judge(step, "empty snapshot", vfSnap{}, calls1, false) {
+					return
+				}
+				if !judge(step, "snapshot after the empty one", next, calls2, true) {
+					return
+				}
+				continue
 			}
 			if blockName == "" {
 				hist = append(hist, fmt.Sprintf("step %d: snapshot %s panic-plan(name(/filter):mask 1=init 2=inherit 4=close)=%v", step, next, planDesc))
